@@ -4,7 +4,7 @@ JSON-lines driver for E6 (PathMode).  Run with
 One JSON object per input line, one per output line.
 
   {"op":"checkMode","modes":[s,…]}                       → {"r":[bool,…]}
-  {"op":"checkPath","facts":{…},"modes":[s,…],"path":p}  → {"wf":bool,"r":[o,…],"sat":[bool,…],"guard":[bool,…]}
+  {"op":"checkPath","facts":{…},"modes":[s,…],"path":p}  → {"wf":bool,"r":[o,…],"sat":[bool,…]}
         o = "ok" | "pe<k>" | "os"; `path` optional ("-" = standard io)
   {"op":"mk","path":p,"expanded":e,"cwd":c}              → {"relative","absolute","cwd"}
   {"op":"load","cwd":c,"cpd":null|d,"ref":r,"items":[…]} → {"ok","trace":[{"rel","abs","base"}],"spec":[…],"cwd","cpd"}
@@ -42,7 +42,7 @@ def getStrs (j : Json) (k : String) : List String :=
 def factsOf (j : Json) : Facts :=
   { ex := getBool j "ex", statOk := getBool j "statOk", isDir := getBool j "isDir", isFile := getBool j "isFile",
     isFifo := getBool j "isFifo", r := getBool j "r", w := getBool j "w", x := getBool j "x",
-    parDir := getBool j "parDir", parW := getBool j "parW", ancDir := getBool j "ancDir", ancW := getBool j "ancW",
+    parDir := getBool j "parDir", parW := getBool j "parW",
     nearDir := getBool j "nearDir", nearW := getBool j "nearW" }
 
 def outToJson : Out → Json
@@ -78,8 +78,7 @@ def step (j : Json) : Json :=
     Json.mkObj [
       ("wf", .bool (decide a.wf)),
       ("r", .arr (modes.map fun m => outToJson (if stdio then .ok else checkPath m a)).toArray),
-      ("sat", .arr (modes.map fun m => Json.bool (satAllDoc m a)).toArray),
-      ("guard", .arr (modes.map fun m => Json.bool (decide (Guard m a))).toArray)]
+      ("sat", .arr (modes.map fun m => Json.bool (satAllDoc m a)).toArray)]
   | "mk" =>
     let p := mkPath (getStr j "path").toList (getStr j "expanded").toList (getStr j "cwd").toList
     Json.mkObj [("relative", .str (String.ofList p.relative)), ("absolute", .str (String.ofList p.absolute)), ("cwd", .str (String.ofList p.cwd))]
